@@ -459,6 +459,8 @@ namespace ValueFlow
                 ((Token::Match(parent, "[&*]") && astIsIntegral(parent, true) && value.intvalue == 0) ||
                  (Token::simpleMatch(parent, "&&") && value.intvalue == 0) ||
                  (Token::simpleMatch(parent, "||") && value.intvalue != 0))) {
+                if (Token::simpleMatch(parent, "||"))
+                    value.intvalue = 1; // the result of a logical or is 0 or 1, not the value of the operand
                 value.bound = Value::Bound::Point;
                 setTokenValue(parent, std::move(value), settings);
                 return;
